@@ -202,6 +202,9 @@ def run(ctx):
         if ctx.n_new() == 0:
             run_demo(ctx, 'demo_graphio.py', [1 + ctx.seed], 'c12-bfs-order-vs-model',
                      'compute_bfs_ordering / message passing of explicitly given trees against the model')
+        if ctx.n_new() == 0:
+            run_demo(ctx, 'demo_tr4.py', [1 + ctx.seed], 'c12-code-vs-generated-vs-model-4',
+                     'BinaryCLT log_likelihood / mpe / message_passing / bfs order vs generated definitions vs model', env_extra=dict(DEMO_SECTIONS='b'))
 
 
 def replay(rep):
